@@ -372,6 +372,10 @@ func (x *Exec) globalAddr(g *ssa.Global) Val {
 		x.decls.Axiom(ref, sLt(ref, "0"))
 		return refVal(ref, g.Type())
 	}
+	if cv, ok := x.eng.finalGlobal(g); ok {
+		x.note("package variable " + g.Name() + " of " + pk + " is never assigned: read as the constant it is initialised with")
+		return Val{K: KAddr, T: g.Type(), A: &Addr{Kind: AGlobal, Key: key, T: et, Final: cv.ExactString()}}
+	}
 	return Val{K: KAddr, T: g.Type(), A: &Addr{Kind: AGlobal, Key: key, T: et}}
 }
 
